@@ -28,6 +28,11 @@ impl RespParser {
         self.buffer.extend_from_slice(data);
     }
     
+    /// Bytes fed and not yet consumed by `parse`
+    pub fn buffered_len(&self) -> usize {
+        self.buffer.len().saturating_sub(self.position)
+    }
+    
     /// Try to parse a complete frame from the buffer
     pub fn parse(&mut self) -> Result<Option<RespFrame>> {
         if self.position >= self.buffer.len() {
